@@ -265,7 +265,7 @@ def step (w : World) : Op → World × Out
       let o ← raw_roundtrip X (do
         let f ← Gen.from_raw_parts_pre X.env (.at 0) 0 0
         match f with
-        | .cont env => pure env.v_aligned
+        | .cont _ => pure ()
         | .ret _ => GM.throw .ub)
       match o with
       | none => pure .none
@@ -274,7 +274,7 @@ def step (w : World) : Op → World × Out
       let o ← raw_roundtrip X (do
         let f ← Gen.from_raw_part_pre X.env (.at 0)
         match f with
-        | .cont env => pure env.v_aligned
+        | .cont _ => pure ()
         | .ret _ => GM.throw .ub)
       match o with
       | none => pure .none
